@@ -395,6 +395,18 @@ class Unit:
         self.span(rel, 'const ' + name, txt)
         mm = re.match(r'(?:static\s+)?const\s+([\w]+)\s+%s\s*((?:\[[^\]]*\])*)' % name, txt)
         ty = mm.group(1) + mm.group(2)
+        # R11c: a scalar constant used in a later constant's initialiser is not a constant expression in C (C++ allows it):
+        # its name is replaced there by its parenthesised initialiser text
+        head, eq, init = txt.partition('=')
+        for prev, ptxt in getattr(self, 'scalar_const_inits', {}).items():
+            if re.search(r'\b%s\b' % prev, init):
+                cxx2c.fire('R11c')
+                init = re.sub(r'\b%s\b' % prev, '(' + ptxt + ')', init)
+        txt = head + eq + init
+        if not mm.group(2):
+            if not hasattr(self, 'scalar_const_inits'):
+                self.scalar_const_inits = {}
+            self.scalar_const_inits[name] = init.strip().rstrip(';').strip()
         self.type_text.append(('static ' if not txt.startswith('static') else '') + txt)
         self.ctx.const_exprs[name] = (name, ty)
         return ty
